@@ -4,5 +4,5 @@ set -e
 cd "$(dirname "$0")/engine"
 export CARGO_NET_OFFLINE=true
 cargo run -q -p vgen -- "$(pwd)"
-cargo build -q -p vseq -p vschema -p vabi15 -p vconc -p vabi09
+cargo build -q -p vseq -p vschema -p vabi15 -p vconc -p vabi09 -p vabi10 -p vintro
 echo "setup done"
